@@ -554,3 +554,64 @@ pub fn ag_in_domain(a: &AG) -> bool {
         AG::Polys(p) => multipoly_valid(p),
     }
 }
+
+/// An integer affine map (a b / c d) + (e, f). It sends the lattice to the lattice, so the image of a shape is again described exactly by
+/// integers and every exact oracle applies to the image directly: no invariance is assumed. Images lose axis alignment (no vertical or
+/// horizontal edges, no axis-parallel rectangles), get steep or nearly parallel edges and larger coordinates.
+#[derive(Clone, Copy, Debug)]
+pub struct IMap {
+    pub m: [i64; 4],
+    pub t: (i64, i64),
+    pub name: &'static str,
+}
+impl IMap {
+    pub fn ap(&self, p: IP) -> IP {
+        (self.m[0] * p.0 + self.m[1] * p.1 + self.t.0, self.m[2] * p.0 + self.m[3] * p.1 + self.t.1)
+    }
+    pub fn det(&self) -> i64 {
+        self.m[0] * self.m[3] - self.m[1] * self.m[2]
+    }
+}
+pub fn imaps() -> Vec<IMap> {
+    vec![
+        IMap { m: [2, 1, 1, 1], t: (0, 0), name: "shear(2 1/1 1)" },
+        IMap { m: [3, -1, 5, 2], t: (100, -70), name: "(3 -1/5 2)+(100,-70)" },
+        IMap { m: [-1, 4, 7, 1], t: (0, 0), name: "reflecting(-1 4/7 1)" },
+        IMap { m: [1, 1000, 0, 1], t: (0, 0), name: "extreme-shear(1 1000/0 1)" },
+        IMap { m: [1001, 1000, 1000, 999], t: (-500000, 123456), name: "nearly-singular(1001 1000/1000 999)+offset" },
+    ]
+}
+pub fn map_ag(ag: &AG, f: &IMap) -> AG {
+    let ring = |r: &Vec<IP>| -> Vec<IP> { r.iter().map(|&p| f.ap(p)).collect() };
+    match ag {
+        AG::Pts(p) => AG::Pts(p.iter().map(|&q| f.ap(q)).collect()),
+        AG::Lines(l) => AG::Lines(l.iter().map(ring).collect()),
+        AG::Polys(ps) => AG::Polys(ps.iter().map(|p| Poly { shell: ring(&p.shell), holes: p.holes.iter().map(ring).collect() }).collect()),
+    }
+}
+pub fn map_geom(g: &Geometry<f64>, f: &IMap) -> Geometry<f64> {
+    let cc = |c: Coord<f64>| -> Coord<f64> {
+        let q = f.ap((c.x as i64, c.y as i64));
+        Coord { x: q.0 as f64, y: q.1 as f64 }
+    };
+    let lsm = |l: &LineString<f64>| LineString::new(l.0.iter().map(|&c| cc(c)).collect());
+    let pgm = |p: &Polygon<f64>| Polygon::new(lsm(p.exterior()), p.interiors().iter().map(lsm).collect());
+    match g {
+        Geometry::Point(p) => Geometry::Point(Point(cc(p.0))),
+        Geometry::Line(l) => Geometry::Line(Line::new(cc(l.start), cc(l.end))),
+        Geometry::LineString(l) => Geometry::LineString(lsm(l)),
+        Geometry::Polygon(p) => Geometry::Polygon(pgm(p)),
+        Geometry::MultiPoint(m) => Geometry::MultiPoint(MultiPoint(m.0.iter().map(|p| Point(cc(p.0))).collect())),
+        Geometry::MultiLineString(m) => Geometry::MultiLineString(MultiLineString(m.0.iter().map(lsm).collect())),
+        Geometry::MultiPolygon(m) => Geometry::MultiPolygon(MultiPolygon(m.0.iter().map(pgm).collect())),
+        // the image of an axis-parallel rectangle is a parallelogram: written as the polygon of its four corners
+        Geometry::Rect(r) => Geometry::Polygon(pgm(&r.to_polygon())),
+        Geometry::Triangle(t) => Geometry::Triangle(Triangle(cc(t.0), cc(t.1), cc(t.2))),
+        Geometry::GeometryCollection(gc) => Geometry::GeometryCollection(GeometryCollection(gc.0.iter().map(|x| map_geom(x, f)).collect())),
+    }
+}
+/// the image of a lattice shape under an integer affine map (abstract description and concrete geometry together)
+pub fn map_shape(s: &Shape, f: &IMap) -> Shape {
+    Shape { ag: map_ag(&s.ag, f), g: map_geom(&s.g, f), fam: s.fam }
+}
+
